@@ -354,6 +354,15 @@ func (s *Store) Prewrite(muts []*kvrpcpb.Mutation, o PrewriteOpts) PrewriteResul
 	var pending []pend
 	var maxMin uint64
 	ownPlain := false
+	for _, m := range muts {
+		if m.Op == kvrpcpb.Op_Insert || m.Op == kvrpcpb.Op_CheckNotExists {
+			// TiKV (prewrite.rs): "update max_ts for Insert operation to guarantee linearizability and snapshot
+			// isolation" - the existence check is a read at start_ts: no async-commit / 1PC transaction may commit
+			// at or below it afterwards
+			s.observe(o.StartTS)
+			break
+		}
+	}
 	for i, m := range muts {
 		k := s.peek(m.Key)
 		action := kvrpcpb.PrewriteRequest_SKIP_PESSIMISTIC_CHECK
